@@ -623,7 +623,11 @@ def check_property(pid, tier, seed, replay=None):
         "violations": len(violations),
     }
     if replay is None:
-        with open(os.path.join(ROOT, "evidence", pid + ".json"), "w") as f:
+        # evidence/ describes runs against /repo itself; a run against a private copy (VERIF_REPO, used for
+        # mutation and seed tests) must never overwrite it
+        evdir = os.path.join(ROOT, "evidence") if os.path.realpath(REPO) == "/repo" else os.path.join(WORK, "evidence-alt")
+        os.makedirs(evdir, exist_ok=True)
+        with open(os.path.join(evdir, pid + ".json"), "w") as f:
             json.dump(evidence, f, indent=1)
     for k in known_hits.values():
         print(f"KNOWN-FINDING: property={pid} {k['what']}")
